@@ -399,3 +399,12 @@ Definition default_index (p : profile) : Z :=
        | Some i => Z.of_nat i
        | None => last
        end.
+
+(* ---------------------------------------------------------------- -proto of a report and reopening
+   report.New computes the total and keeps the profile as it is; printProto (report.Generate with the
+   Proto format, Ratio 1) writes the report's own profile; the "pprof::base" label is removed only
+   by newGraph, which -proto never runs.  Serialization itself is C01's subject (identity here). *)
+Definition report_new (p : profile) (i : nat) : profile * Z := (p, compute_total i (p_sample p)).
+Definition print_proto (rpt : profile * Z) : profile := fst rpt.
+Definition remove_base_label (p : profile) : profile :=
+  set_samples p (map (fun s => set_label_of s (filter (fun kv => negb (String.eqb (fst kv) base_key)) (s_label s))) (p_sample p)).
